@@ -17,7 +17,7 @@ PROPS = {
         theorems=[("C04", "C04_ron_modes_commute"), ("C04", "C04_ron_entries_permutation"), ("C04", "C04_ron_any_order"),
                   ("C04", "C04_roe_single_key"), ("C04", "C04_mapping_lookup_order_free"), ("C04", "C04_types_map_order"),
                   ("C04", "C04_partial_types"), ("C04", "C04_types_map_order_refuted"), ("C04", "C04_inventory"),
-                  ("C04", "C04_checker_sound")],
+                  ("C04", "C04_outside_D11_at_most_once"), ("C04", "C04_checker_sound")],
         quick=dict(n=300), thorough=dict(n=5000), per_shard=1250,
         # the same flags in both tiers (./check has no per-tier flags): the harness takes k = 16 when n >= 5000
         harness_flags=["--k", "4", "--k-thorough", "16", "--thorough-n", "5000", "--batch", "25"],
